@@ -6,7 +6,7 @@ correspond : module trees (exhaustive small scope + random) -> Lean model `drv_c
 decide     : the implementation's own output is judged against the property (private member reached from outside,
              private module traversed from outside, local binding not shadowing); listed finding classes print KNOWN-FINDING.
 """
-import os, json, collections, itertools
+import os, json, collections, itertools, hashlib
 from vlib import *
 
 MODULES = ["Mimium.Props.C17"]
@@ -230,7 +230,6 @@ def use_options(tree):
         if len(p) >= 2:
             for s in suffixes(p, 2):
                 targets.add((s, "S"))
-                targets.add((s[:-1], ("L", (s[-1],))))
     for m in mods:
         for s in suffixes(m, 1):
             targets.add((s, "W"))
@@ -268,7 +267,8 @@ def gen_exhaustive(max_defs, shard, nshards, stride=1):
         for use in use_options(tree):
             for pos in [()] + mods:
                 for ref in refs:
-                    shadows = (None, "let") if ref[0] == "v" else (None,)
+                    # shadowing is only interesting when something could be shadowed: an import or a module member
+                    shadows = (None, "let") if ref[0] == "v" and (use is not None or pos != ()) else (None,)
                     for sh in shadows:
                         n += 1
                         if n % nshards != shard:
@@ -414,7 +414,7 @@ def compare_cases(ctx, name, cases, stats):
         stats["classes"][icls] += 1
         stats["forms"][("ident" if c["ref"][0] == "v" else "path") + ("+shadow" if c["shadow"] else "")] += 1
         if icls in ("ok", "private"):
-            stats["nontrivial"].add(hash(c["tokens"]))
+            stats["nontrivial"].add(int.from_bytes(hashlib.blake2b(c["tokens"].encode(), digest_size=8).digest(), "little"))
         if not agree:
             stats["disagreements"] += 1
         if verdict != "ok":
@@ -430,20 +430,48 @@ def compare_cases(ctx, name, cases, stats):
     return problems
 
 
+CHUNK = 4000          # the compiler's global interner grows with every case: keep harness processes short-lived
+KEEP_PER_SHARD = 50   # problem records kept per shard and kind (smallest first); everything is counted
+
+
 def work(arg):
     """one shard of the correspondence (runs in a worker process)"""
-    job, max_defs, stride = arg
+    job, max_defs, stride, known_classes = arg
     st = new_stats()
+    st["known_class_hits"] = collections.Counter()
+    st["problem_counts"] = collections.Counter()
     if job[0] == "enum":
         cases = gen_exhaustive(max_defs, job[1], job[2], stride)
     else:
         cases = gen_random(job[1], job[2])
-    pr = []
+    kept = {"fail": [], "disagree": [], "other": []}
     while True:
-        chunk = list(itertools.islice(cases, 20000))
+        chunk = list(itertools.islice(cases, CHUNK))
         if not chunk:
             break
-        pr += compare_cases(None, f"{job[0]}{job[1]}", chunk, st)
+        for pr in compare_cases(None, f"{job[0]}{job[1]}", chunk, st):
+            if pr["kind"] != "case":
+                kept["other"].append(pr)
+                continue
+            if pr["judge"] != "ok":
+                cls = finding_class(pr)
+                if cls in known_classes:
+                    st["known_class_hits"][cls] += 1
+                    continue
+                bucket = "fail"
+            else:
+                bucket = "disagree"
+            st["problem_counts"][bucket] += 1
+            kept[bucket].append(pr)
+            if len(kept[bucket]) > 4 * KEEP_PER_SHARD:
+                kept[bucket] = sorted(kept[bucket], key=lambda r: len(r["tokens"]))[:KEEP_PER_SHARD]
+    pr = kept["other"][:KEEP_PER_SHARD]
+    for b in ("fail", "disagree"):
+        pr += sorted(kept[b], key=lambda r: len(r["tokens"]))[:KEEP_PER_SHARD]
+    if job[0] == "enum":
+        # shards of the exhaustive scope are disjoint by construction: report the count, not the set
+        st["nontrivial_count"] = len(st["nontrivial"])
+        st["nontrivial"] = set()
     return st, pr
 
 
@@ -495,25 +523,30 @@ def main(ctx, args):
         ctx.finish()
     stats = new_stats()
     problems = []
+    known_classes = {k["class"] for k in known if "class" in k}
+    nontrivial_enum, shard_known, shard_counts = 0, collections.Counter(), collections.Counter()
     if args.replay:
         r = json.load(open(args.replay))
         problems += compare_cases(ctx, "replay", [case_from_record(r)], stats)
     else:
         problems += compare_cases(ctx, "corpus", load_corpus(), stats)
-        max_defs, stride = (2, 1) if ctx.tier == "quick" else (3, 6)
+        max_defs, stride = (2, 1) if ctx.tier == "quick" else (3, 4)
         shards = NCPU * 2
         jobs = [("enum", k, shards) for k in range(shards)]
         nrand = NCPU * 2 if ctx.tier == "quick" else NCPU * 8
-        per = 4000 if ctx.tier == "quick" else 25000
+        per = 3000 if ctx.tier == "quick" else 20000
         jobs += [("rand", ctx.seed * 100000 + i, per) for i in range(nrand)]
 
         from concurrent.futures import ProcessPoolExecutor
         with ProcessPoolExecutor(max_workers=NCPU) as ex:
-            results = list(ex.map(work, [(j, max_defs, stride) for j in jobs]))
+            results = list(ex.map(work, [(j, max_defs, stride, known_classes) for j in jobs]))
         for st, pr in results:
             for k in ("evaluations", "disagreements", "impl_property_failures"):
                 stats[k] += st[k]
             stats["nontrivial"] |= st["nontrivial"]
+            nontrivial_enum += st.get("nontrivial_count", 0)
+            shard_known.update(st["known_class_hits"])
+            shard_counts.update(st["problem_counts"])
             stats["classes"].update(st["classes"])
             stats["forms"].update(st["forms"])
             stats["samples"] += st["samples"][:1]
@@ -526,6 +559,8 @@ def main(ctx, args):
     # ---- decide
     known_by_class = {k["class"]: k for k in known if "class" in k}
     new_fail, known_hits, disagree = [], collections.Counter(), []
+    for cls, n in shard_known.items():
+        known_hits[known_by_class[cls]["id"]] += n
     for pr in problems:
         if pr["kind"] != "case":
             ctx.violation(f"{pr['kind']} in stream {pr.get('stream')}", pr, found_input=False)
@@ -541,11 +576,13 @@ def main(ctx, args):
     sz = lambda pr: len(pr["tokens"])
     if new_fail:
         best = min(new_fail, key=sz)
-        ctx.violation(f"implementation violates C17 ({best['judge']}): impl={best['impl'][:2]} model={best['model']} on\n{best['source']}\n({len(new_fail)} failing cases)",
-                      dict(best, replay_cmd="./check C17 --replay <this file>", failing_cases=len(new_fail)))
+        nfail = max(len(new_fail), shard_counts["fail"])
+        ctx.violation(f"implementation violates C17 ({best['judge']}): impl={best['impl'][:2]} model={best['model']} on\n{best['source']}\n({nfail} failing cases)",
+                      dict(best, replay_cmd="./check C17 --replay <this file>", failing_cases=nfail))
     elif disagree:
         best = min(disagree, key=sz)
-        ctx.violation(f"model/implementation disagree on {len(disagree)} cases (smallest: impl={best['impl'][:2]} model={best['model']}) but no property failure found:\n{best['source']}",
+        ndis = max(len(disagree), shard_counts["disagree"])
+        ctx.violation(f"model/implementation disagree on {ndis} cases (smallest: impl={best['impl'][:2]} model={best['model']}) but no property failure found:\n{best['source']}",
                       dict(best, correspondence="Model/ModRes.lean vs ast/program.rs + convert_qualified_names.rs", cases=len(disagree)),
                       found_input=False)
     if not proved and not new_fail:
@@ -557,9 +594,9 @@ def main(ctx, args):
             ctx.known_finding(f"{k['id']} {k['what']} (cases hit this run: {n})")
     ctx.coverage.update({
         "evaluations": stats["evaluations"],
-        "distinct_nontrivial": len(stats["nontrivial"]),
+        "distinct_nontrivial": len(stats["nontrivial"]) + nontrivial_enum,
         "rule": "one case = one whole program (module tree + use statements + probe + dsp) compiled by the real compiler and run for one sample; "
-                "non-trivial = the reference was accepted and reached a definition (class ok) or was rejected as private; distinct = distinct program text",
+                "non-trivial = the reference was accepted and reached a definition (class ok) or was rejected as private; distinct = distinct program text (64-bit hash; shards of the exhaustive scope are disjoint by construction and are summed)",
         "samples": stats["samples"][:5] or [{"note": "no sample in replay mode"}],
         "traces_validated_against_impl": stats["evaluations"],
         "model_impl_disagreements": stats["disagreements"],
